@@ -51,6 +51,37 @@ class SymArray(_np.ndarray):
         return _np.ndarray.conj(self)
     conjugate = conj
 
+    @staticmethod
+    def _conc_key(key):
+        """Object arrays of symbolic Booleans used as masks are made
+        concrete by forking on every element."""
+        def conv(k):
+            if isinstance(k, _np.ndarray) and k.dtype == object:
+                out = _np.empty(k.shape, dtype=bool)
+                for idx in _np.ndindex(*k.shape):
+                    out[idx] = bool(k[idx])
+                return out
+            return k
+        if isinstance(key, tuple):
+            return tuple(conv(k) for k in key)
+        return conv(key)
+
+    def __getitem__(self, key):
+        return _np.ndarray.__getitem__(self, SymArray._conc_key(key))
+
+    def __setitem__(self, key, value):
+        return _np.ndarray.__setitem__(self, SymArray._conc_key(key), value)
+
+    def max(self, *a, **k):
+        if self.dtype == object and has_sym(self) and not a and not k:
+            return maximum_reduce(self)
+        return _np.ndarray.max(self, *a, **k)
+
+    def min(self, *a, **k):
+        if self.dtype == object and has_sym(self) and not a and not k:
+            return minimum_reduce(self)
+        return _np.ndarray.min(self, *a, **k)
+
     def astype(self, dtype, *a, **k):
         if self.dtype == object and has_sym(self):
             dt = _np.dtype(dtype)
@@ -387,6 +418,13 @@ def sort(a, *args, **kw):
     if not has_sym(a):
         return _np.sort(a, *args, **kw)
     a = _np.asarray(a, dtype=object)
+    if a.ndim == 2 and (args == (1,) or kw.get('axis') in (1, -1) or
+                        (not args and 'axis' not in kw)):
+        rows = [sort(a[i]) for i in range(a.shape[0])]
+        r = _np.empty(a.shape, dtype=object)
+        for i, row in enumerate(rows):
+            r[i, :] = row
+        return r.view(SymArray)
     if a.ndim != 1:
         raise TypeError("symx: sort of symbolic nd-array")
     out = list(a)
@@ -478,6 +516,11 @@ def all__(a, *args, **kw):
     return _np.all(a, *args, **kw)
 
 
+def vstack(tup, *a, **k):
+    r = _np.vstack(tup, *a, **k)
+    return _wrap(r)
+
+
 def maximum_reduce(a, *args, **kw):
     if has_sym(a) and not args and not kw:
         vals = list(_np.asarray(a, dtype=object).flat)
@@ -524,7 +567,7 @@ symnp = _Namespace(_np, dict(
     imag=imag, conj=conj, conjugate=conj, abs=abs_, absolute=abs_,
     sqrt=sqrt, exp=_uf('exp', _np.exp), log=_uf('ln', _np.log),
     log10=_uf('lg', _np.log10), round=round_, around=round_, sort=sort,
-    linalg=_np_linalg, allclose=allclose, unique=unique, any=any__, all=all__,
+    linalg=_np_linalg, allclose=allclose, unique=unique, vstack=vstack, any=any__, all=all__,
     max=maximum_reduce, amax=maximum_reduce, min=minimum_reduce,
     amin=minimum_reduce, clip=clip,
 ))
